@@ -66,7 +66,7 @@ def valid_tokens(rng, v):
 MALFORMED = ["-1", "-1.0", "-0.5", "-1e0", '"-1"', '"-0x1"', "1.5", "0.5", "1e-1", "2.5e0", "1e16", "9007199254740992.0", "1e400",
              "18446744073709551616", "-9223372036854775809", '"%d"' % U256, '"0x1%064x"' % 0, '"%d"' % (U256 * 10), '""', '"0x"', '"0xg"', '"0x 1"',
              '" 5"', '"5 "', '"1_000"', '"1,000"', '"1.0"', '"1e3"', '"0X10"', '"x10"', '"١"', '"５"', "true", "false", "null", "[]", "[1]", "{}",
-             '{"a":1}', '{"$serde_json::private::Number":"1"}', '{"$serde_json::private::Number":"1e0"}', '{"$serde_json::private::RawValue":"1"}', '"+"', '"-"', '"0x+1"', '"0x-1"', '"+-1"', '"--1"', '"0b"', '"0o"', '"0b2"', '"0o8"', '"1h"', '"0x1g"', '"\\u0000"']
+             '{"a":1}', '{"$serde_json::private::Number":"1"}', '{"$serde_json::private::Number":"1e0"}', '{"$serde_json::private::RawValue":"1"}', '"+"', '"-"', '"0x+1"', '"0x-1"', '"+-1"', '"--1"', '"0b"', '"0o"', '"0b2"', '"0o8"', '"1h"', '"0x1g"', '"%s"' % ("f" * 64), '"%s"' % ("ab" * 32), '"%s"' % ("0" * 63 + "f"), '"%s"' % ("a" * 40), '"%s"' % ("0" * 62 + "1f"), '"\\u0000"']
 MAY = [('"0b101"', 5), ('"0o17"', 15), ('"+5"', 5), ('"+0x10"', 16), ('"+0b11"', 3), ('"007"', 7), ('"0x0000"', 0), ('"+0"', 0), ('"0b0"', 0)]
 K1 = ["1.00000000000000001", "4503599627370497.5", "9007199254740991.0", "0.99999999999999999999", "2.0000000000000000001e0",
       "1234567890123456.7", "3.000000000000000000000000001", "72057594037927935.9e-1", "1e0000000000000000000000", "100000000000000000000e-20",
@@ -88,9 +88,12 @@ def run(ctx):
     thorough = ctx.tier == "thorough"
     docs, meta = [], []  # meta: (kind, field, token, expect, how)  expect: ("exact", v) | ("reject",) | ("may", v) | ("k1",)
     values = txgen.BOUNDARY + [rng.getrandbits(rng.choice([8, 30, 53, 60, 64, 65, 128, 200, 256])) for _ in range(6 if not thorough else 40)]
+    # decimal strings whose LENGTH is that of a 32-byte hex word (64 digits) or of an address (40), and their neighbours
+    values += [10 ** 63, 10 ** 63 + rng.randrange(10 ** 62), int("9" * 64), int("1" * 64), 10 ** 39 + 7, 10 ** 62, 10 ** 64, 10 ** 65 + 1]
     for kind in range(3):
         for f in NUMERIC[kind]:
-            for v in values:
+            for v in values + ([LEGACY_CHAIN_MAX - 1, LEGACY_CHAIN_MAX, LEGACY_CHAIN_MAX + 1, LEGACY_CHAIN_MAX + 2, LEGACY_CHAIN_MAX + 18, LEGACY_CHAIN_MAX + 19]
+                               if f == "chainId" else []):
                 toks = valid_tokens(rng, v)
                 if not thorough:
                     toks = rng.sample(toks, min(len(toks), 4))
